@@ -72,8 +72,9 @@ class Run:
                 seen.add(k)
                 self.functions.append(d)
 
-    def add_verus(self, unit, res, cex_finder=None):
-        """Fold a VerusResult into the run."""
+    def add_verus(self, unit, res, cex_finder=None, expect_fail=()):
+        """Fold a VerusResult into the run. `expect_fail`: labels of vacuity probes (a copy of a function under the same precondition
+        with `ensures false` added): each MUST fail, otherwise the precondition is contradictory and the real obligations say nothing."""
         self.cmds.append(res.cmd)
         self.solver_time_s += res.time_s
         for t in res.trusted:
@@ -91,7 +92,18 @@ class Run:
             self.undecided.append("verus unit %s: canary `ensures false` was NOT rejected (vacuous context or verifier did not run)" % unit.name)
             return
         failed_labels = set()
+        probes_hit = set()
         for f in res.failed:
+            if f["label"] in expect_fail:
+                probes_hit.add(f["label"])
+        for lab in expect_fail:
+            if lab not in probes_hit:
+                self.undecided.append("verus unit %s: vacuity probe %s was NOT rejected: its precondition is contradictory or unreachable" % (unit.name, lab))
+        if expect_fail:
+            self.extra.setdefault("vacuity_probes_rejected", []).extend(sorted(probes_hit))
+        for f in res.failed:
+            if f["label"] in expect_fail:
+                continue
             lab = f["label"] or ("prelude@%d" % f["line"])
             failed_labels.add(lab)
             key = "%s|%s|%s" % (lab, f["kind"], f["expr"][:120])
